@@ -612,6 +612,11 @@ def run(tier, seed, replay=None):
         "the most distant taxon pair used by reroot_at_midpoint (iteration order of a set hashed by id()) and the "
         "draws of the random source are inputs of the model, recorded from the implementation",
         "statement-level pointer manipulation (parent pointers, edge objects) is the subject of C03, not modelled here",
+        "translator tie for reroot_at_midpoint: coq/Gen/Midpoint.v is compiled from the method's AST by "
+        "py/dv/gen_midpoint.py and proved equal to the model (Props/C07Gen.v); trusted there: the Python semantics "
+        "stated in coq/Model/C07GenMidPrims.v (node references as parent-pointer paths, identity = id, the "
+        "distance-matrix queries / distance_from_root / reseed_at / update_bipartitions as interface operations "
+        "given by C07Model's functions, the six-statement edge split recognised as one operation = split_edge)",
     ]
     if replay:
         r = json.load(open(replay))["replay"]
@@ -621,6 +626,9 @@ def run(tier, seed, replay=None):
         print("oracle:", oracle(case, obs))
         return 0
     ok = core.proof_stage(ctx, ["Props/C07.vo"])
+    # translator tie: Gen/Midpoint.v (py/dv/gen_midpoint.py, regenerated from Tree.reroot_at_midpoint on every run)
+    # is proved equal to C07Model.midpoint_core; the property theorems are restated for the generated code
+    ok = core.proof_stage(ctx, ["Props/C07Gen.vo"], props_file="Props/C07Gen.v", gen_needed=("Midpoint",)) and ok
     if not ok:
         core.broken_proof(ctx, search)
     cases = fixed_cases()
